@@ -287,6 +287,86 @@ def ob_insert_flag(run, mir, rp, fam):
     e2.prove(run, ob, ex, [], conj(claims), {"mutable": mutable}, fam.as_replay("mutability-recorded:"))
 
 
+UNIFY_FUN_RS = "src/check/constrain/unify/function.rs"
+FIELD_RS = "src/check/context/field/mod.rs"
+
+
+def fin_field_family(rp):
+    f = e2.Family(rp)
+    f.add("instance", "class A\n    def fin x: Int := 1\ndef a := A()\na.x := 2", "reject")
+    f.add("self", "class A\n    def fin x: Int := 1\n    def m(self) => self.x := 2", "reject")
+    f.add("class-argument", "class A(def fin x: Int)\ndef a := A(1)\na.x := 2", "reject")
+    f.add("compound", "class A\n    def fin x: Int := 1\ndef a := A()\na.x += 2", "reject")
+    f.add("mutable-field-control", "class A\n    def x: Int := 1\ndef a := A()\na.x := 2", "accept")
+    f.add("mutable-self-control", "class A\n    def x: Int := 1\n    def m(self) => self.x := 2", "accept")
+    f.add("fin-field-read-control", "class A\n    def fin x: Int := 1\ndef a := A()\ndef y: Int := a.x", "accept")
+    f.add("fin-field-read-into-reassignment-control", "class A\n    def fin x: Int := 1\ndef a := A()\ndef y: Int := 0\ny := a.x", "accept")
+    return f
+
+
+def ob_fin_field(run, mir, rp, fam):
+    ob = run.ob("fin-field-protected", "E2", "field_access (where the unifier resolves `receiver.field` against the class of the receiver), one iteration of the "
+                "loop over the receiver's classes: when the constraint stems from a reassignment (message `reassign`, the only thing that tells an "
+                "assignment target from a read there) and the field is declared `fin` (Field::mutable = false), the path is an error - no constraint "
+                "is queued and unification does not go on", ["field_access (loop body)"])
+    fn = e2.find1(mir, file=UNIFY_FUN_RS, name="field_access")
+    ex = Exec(mir, max_paths=20000)
+    st = State()
+    names_ = ["constraints", "finished", "ctx", "entity_name", "name", "accessed", "other", "msg", "total"]
+    if len(fn.args) != len(names_):
+        raise Unsupported(f"field_access: signature changed ({len(fn.args)} parameters)")
+    args = []
+    for (an, aty), nm in zip(fn.args, names_):
+        t = aty.strip()
+        if t == "usize":
+            v = z3.BitVec("total", 64)
+        elif t.startswith("&") and not t.startswith("&[") and t != "&str":
+            v = Ref(ex.new_cell(st, opq(nm, t.lstrip("&").replace("mut ", "").strip())))
+        else:
+            v = opq(nm, t)
+        args.append(v)
+    by = dict(zip(names_, args))
+    ends = e2.run_kernel(run, ex, fn, args, st)
+    ff = e2.rust_struct(FIELD_RS, "Field")
+    is_reassign = ex.to_val(st, by["msg"]) == ex.to_val(st, StrC("reassign"))
+    claims, n = [], 0
+    reads_flag = False
+    for p in ends:
+        gets = [e_ for e_ in p.events if e_["name"].endswith("GetField::field")]
+        pushes = calls(p, "Constraints::push")
+        if not gets or not pushes:
+            continue
+        n += 1
+        s = p.state
+        fld = ex.project(s, ex.project(s, gets[-1]["ret"], ("v", "Ok")), ("f", 0), "Field")
+        mut = ex.project(s, fld, ("f", ff.index("mutable")), "bool")
+        if not z3.is_bool(mut):
+            raise Unsupported("Field::mutable is not a boolean term")
+        if any(str(mut) in str(cnd) for cnd in p.cond):
+            reads_flag = True
+        claims.append(z3.Implies(z3.And(conj(p.cond), is_reassign), mut))
+    if not n:
+        raise Unsupported("no path queues a field constraint")
+    ffam = fin_field_family(rp)
+
+    def replay(model):
+        k, bad = ffam.run()
+        if bad:
+            roles = sorted(b["role"] for b in bad)
+            return {"reproduced": True, "role": "fin-field-reassigned:" + "+".join(roles), "failing_programs": roles,
+                    "detail": f"program {bad[0]['src']!r}: expected {bad[0]['expected']}, real verdict {bad[0]['got']}" +
+                              ("" if reads_flag else "; field_access never looks at Field::mutable")}
+        return {"reproduced": False, "detail": f"all {k} programs behave as required"}
+    e2.prove(run, ob, ex, [], conj(claims), {"message is `reassign`": is_reassign}, replay)
+    if ob.status == "discharged":
+        k, bad = ffam.run()
+        run.validated += k
+        if bad:
+            ob.status = "pending"
+            ob.inconclusive(f"fin-field family disagrees although the kernel is as specified: {bad[:2]}")
+    run.samples.append({"obligation": ob.id, "queueing_paths": n, "reads_Field_mutable": reads_flag})
+
+
 def run(run):
     mir = e2.load_mir(run)
     rp = common.Replay()
@@ -296,7 +376,7 @@ def run(run):
                "outside: shadowing offsets (var_mapping), tuple destructuring through match_name, fin self / fin fields in the unifier")
     run.trusted += ["rustc nightly MIR dump", "mirsym MIR semantics", "z3"]
     run.bounds = {"entries_per_name": 2, "paths": "all paths, loops cut at headers"}
-    for f in (ob_closure, ob_outer, ob_reassign_order, ob_reassignable, ob_insert_flag):
+    for f in (ob_closure, ob_outer, ob_reassign_order, ob_reassignable, ob_insert_flag, ob_fin_field):
         try:
             f(run, mir, rp, fam)
         except Unsupported as e:
